@@ -176,7 +176,7 @@ fn recomp_case(rt: &tokio::runtime::Runtime, dir: &Path, case: &Value, n: usize)
 			ev["lookups"] = json!([]);
 			ev["walk"] = json!([]);
 			ev["walk_ok"] = json!(0);
-			ev["file"] = json!({"skip":1,"ok":0,"tiles":[],"tc":"","meta_ok":0});
+			ev["file"] = json!({"skip":1,"ok":0,"tiles":[],"tc":"","meta_name":""});
 			return ev;
 		}
 	};
@@ -233,7 +233,7 @@ fn recomp_case(rt: &tokio::runtime::Runtime, dir: &Path, case: &Value, n: usize)
 	if matches!(r, Ok(Ok(()))) {
 		ev["file"] = recomp_file(fmt, &path, &raw, meta_name);
 	} else {
-		ev["file"] = json!({"skip":0,"ok":0,"tc":"","tiles":[],"meta_ok":0,"err":format!("{r:?}").chars().take(200).collect::<String>()});
+		ev["file"] = json!({"skip":0,"ok":0,"tc":"","tiles":[],"meta_name":"","err":format!("{r:?}").chars().take(200).collect::<String>()});
 	}
 	remove_path(&path);
 	ev
@@ -257,12 +257,14 @@ fn recomp_file(fmt: &str, path: &Path, raw: &std::collections::HashMap<Vec<u8>, 
 	};
 	let mut tiles: Vec<(u8, u32, u32, i64)> = d.tiles.iter().map(|t| (t.0, t.2, t.1, id_of(&t.3, &d.tc))).collect();
 	tiles.sort();
-	let meta_ok = match (&d.meta, fmt) {
-		(_, "mbtiles") => (d.layout["metadata"]["name"].as_str() == Some(meta_name)) as u8,
-		(Some(m), _) => serde_json::from_slice::<Value>(m).ok().map(|v| (v["name"].as_str() == Some(meta_name)) as u8).unwrap_or(0),
-		(None, _) => 0,
+	// observation only: the `name` the output's metadata carries
+	let meta_name_out: String = match (&d.meta, fmt) {
+		(_, "mbtiles") => d.layout["metadata"]["name"].as_str().unwrap_or("<absent>").to_string(),
+		(Some(m), _) => serde_json::from_slice::<Value>(m).ok().and_then(|v| v["name"].as_str().map(|s| s.to_string())).unwrap_or("<absent>".into()),
+		(None, _) => "<absent>".into(),
 	};
-	json!({"skip":0,"ok":d.ok as u8,"tc":d.tc,"tiles":tiles.iter().map(|t| json!([t.0,t.2,t.1,t.3])).collect::<Vec<_>>(),"meta_ok":meta_ok,"err":d.err})
+	let _ = meta_name;
+	json!({"skip":0,"ok":d.ok as u8,"tc":d.tc,"tiles":tiles.iter().map(|t| json!([t.0,t.2,t.1,t.3])).collect::<Vec<_>>(),"meta_name":meta_name_out,"err":d.err})
 }
 
 // ------------------------------------------------------------------------------------------ the real CLI
@@ -384,7 +386,7 @@ fn cli_recomp_case(bin: &str, dir: &Path, case: &Value, n: usize, override_input
 	let (exit, err) = run_cli(bin, &args);
 	let mut ev = json!({"ev":"clirecomp","id":n,"tiles":src.tiles_json(),"src_tc":src_tc,"target":target,"force":force as u8,"fmt":fmt,"override":override_input as u8,"exit":exit,
 		"args":args[1..args.len()-2],"err":if exit == 0 { String::new() } else { err }});
-	ev["file"] = if path.exists() { recomp_file(fmt, &path, &raw, meta_name) } else { json!({"skip":0,"ok":0,"tc":"","tiles":[],"meta_ok":0,"err":"no output"}) };
+	ev["file"] = if path.exists() { recomp_file(fmt, &path, &raw, meta_name) } else { json!({"skip":0,"ok":0,"tc":"","tiles":[],"meta_name":"","err":"no output"}) };
 	remove_path(&path);
 	ev
 }
